@@ -1,5 +1,6 @@
 import DarkluaModel.C05.Lemmas
 import DarkluaModel.C05.Graph
+import DarkluaModel.C05.Dag
 /-!
 # C05 — a bundle behaves like the program with its modules required normally: property theorems
 
@@ -198,6 +199,64 @@ theorem inline_cyclic_sound (G : Graph P) (entrySites : List (Site P)) (ps : Lis
         · simp [hb] at hsh⟩)
     St.empty (by intro e he; simp [St.empty] at he)
   exact hv _ h ps rfl
+
+/-- **One definition per file, in dependency order.** If the walk collects no error (the bundler
+succeeds) then, whatever the spellings and however often a file is required (diamonds):
+* no file is defined twice (the key is the resolved path);
+* the defined files are exactly the files reachable from the entry's unshadowed requires;
+* every module is defined after all the modules it requires — so the reachable graph is acyclic
+  and the definition order is a topological order of it. -/
+theorem inline_dag (G : Graph P) (entrySites : List (Site P))
+    (hok : (inlineAll G entrySites).errors = []) :
+    let paths := (inlineAll G entrySites).defs.map (·.1)
+    (∀ (i j : Nat) (p : P), paths[i]? = some p → paths[j]? = some p → i = j) ∧
+    (∀ p, p ∈ paths ↔ Reach G entrySites p) ∧
+    (∀ (i j : Nat) (p q : P), paths[i]? = some p → paths[j]? = some q → Edge G p q → j < i) := by
+  intro paths
+  have hspec := visit_spec G (Reach G entrySites) [] (inlineRequire G (G.length + 1) []) true entrySites
+    (fun s hs q hq ha => inlineRequire_spec G (Reach G entrySites) (fun p q hp he => Reach.step hp he) _ [] q
+      (Reach.root ⟨s, hs, by
+        cases hb : s.shadowed
+        · rfl
+        · simp [Active, hb] at ha, hq⟩))
+    St.empty
+    ⟨by intro p i h; simp [St.empty, lookup] at h, by intro i p h; simp [St.empty, St.paths] at h,
+     by intro i p h; simp [St.empty, St.paths] at h, by intro i p h; simp [St.empty, St.paths] at h,
+     by intro h; simp [St.empty] at h⟩
+    (by intro x hx; cases hx)
+  obtain ⟨hI, _, _, hdone⟩ := hspec
+  have hskip : (visit (inlineRequire G (G.length + 1) []) true entrySites St.empty).2.skip = [] := by
+    by_cases h : (visit (inlineRequire G (G.length + 1) []) true entrySites St.empty).2.skip = []
+    · exact h
+    · exact absurd hok (hI.skipErr h)
+  have huniq : ∀ (i j : Nat) (p : P), paths[i]? = some p → paths[j]? = some p → i = j := by
+    intro i j p hi hj
+    have h1 := hI.def_cache i p hi
+    have h2 := hI.def_cache j p hj
+    rw [h1] at h2; exact Option.some.inj h2
+  refine ⟨huniq, ?_, ?_⟩
+  · intro p
+    constructor
+    · intro hp
+      obtain ⟨i, hi⟩ := List.getElem?_of_mem hp
+      exact hI.reach i p hi
+    · intro hp
+      induction hp with
+      | root hq =>
+        obtain ⟨s, hs, hsh, ht⟩ := hq
+        rcases hdone s hs _ ht (by simp [Active, hsh]) with h | ⟨j, hj⟩
+        · rw [hskip] at h; cases h
+        · exact List.mem_of_getElem? hj
+      | step _ he ih =>
+        obtain ⟨i, hi⟩ := List.getElem?_of_mem ih
+        rcases hI.rank i _ hi _ he with h | ⟨j, _, hj⟩
+        · rw [hskip] at h; cases h
+        · exact List.mem_of_getElem? hj
+  · intro i j p q hi hj he
+    rcases hI.rank i p hi q he with h | ⟨j', hlt, hj'⟩
+    · rw [hskip] at h; cases h
+    · have := huniq j j' q hj hj'
+      omega
 
 end graph
 
